@@ -423,7 +423,11 @@ def h_simulate(c):
     model = _build_model(c)
     target = c.get("target", "solve_and_simulate")
     jit = c.get("jit", True)
-    init = {k: jnp.asarray([fq(x) for x in v], dtype=float) for k, v in c["initial_states"]}
+    from lcm.grids import DiscreteGrid as _DG
+    init = {k: (jnp.asarray([int(fq(x)) for x in v])
+                if isinstance(model.states.get(k), _DG) or (c.get("int_arrays") and all(float(fq(x)).is_integer() for x in v))
+                else jnp.asarray([fq(x) for x in v], dtype=float))
+            for k, v in c["initial_states"]}
     kwargs = {"initial_states": init}
     if "seed" in c:
         kwargs["seed"] = c["seed"]
@@ -451,3 +455,58 @@ def h_simulate(c):
             sol = solve(params)
         out["solution"] = [_val_wire_arr(v) for v in sol]
     return out
+
+
+# ---- C04 ---------------------------------------------------------------------------------
+def h_choice(c):
+    """same key: the uniform consumed by jax.random.choice and the label lcm.random_choice draws"""
+    from lcm.random_choice import random_choice
+    p = jnp.asarray([fq(x) for x in c["p"]], dtype=float)
+    n = c.get("n", 1)
+    key = jax.random.PRNGKey(c["seed"])
+    probs = jnp.tile(p, (n, 1))
+    labels = jnp.arange(len(c["p"]))
+    drawn = random_choice(key, probs=probs, labels=labels)
+    keys = jax.random.split(key, n)
+    us = [float(jax.random.uniform(k, (), dtype=probs.dtype)) for k in keys]
+    return {"drawn": [int(x) for x in np.asarray(drawn)], "uniforms": [to_wire(u) for u in us]}
+
+
+def h_replay_draws(c):
+    """replay lcm.simulate's key discipline outside lcm: for period t, stochastic variable j
+    (order of the stochastic next functions in the model's functions dict) and agent i the label
+    drawn from the given row with the key split(keys_t[1 + j], n_agents)[i]"""
+    n_ids, n_agents, T = c["n_ids"], c["n_agents"], c["n_periods"]
+    key = jax.random.PRNGKey(c["seed"])
+    out = []
+    for t in range(T):
+        keys = jax.random.split(key, num=n_ids + 1)
+        key = keys[0]
+        per_var = []
+        for j in range(n_ids):
+            agent_keys = jax.random.split(keys[1 + j], n_agents)
+            labs = []
+            for i in range(n_agents):
+                row = c["rows"][t][j][i]
+                if row is None:
+                    labs.append(None)
+                    continue
+                p = jnp.asarray([fq(x) for x in row], dtype=float)
+                labs.append(int(jax.random.choice(agent_keys[i], a=jnp.arange(len(row)), p=p)))
+            per_var.append(labs)
+        out.append(per_var)
+    return out
+
+
+def h_simulate_stats(c):
+    """large-batch simulation of a model; returns per (t, state) the joint counts needed for
+    frequency tests: counts[(dependency labels..., next label)]"""
+    from lcm.entry_point import get_lcm_function
+    model = _build_model(c)
+    f, template = get_lcm_function(model, targets="solve_and_simulate", jit=True)
+    params = _build_params(c, template)
+    init = {k: (jnp.asarray([int(fq(x)) for x in v])) if c["discrete"][k] else jnp.asarray([fq(x) for x in v], dtype=float)
+            for k, v in c["initial_states"]}
+    df = f(params, initial_states=init, seed=c["seed"])
+    cols = {col: np.asarray(df[col], dtype=float).tolist() for col in df.columns}
+    return {"columns": {k: [to_wire(x) for x in v] for k, v in cols.items()}, "n_rows": len(df)}
